@@ -176,7 +176,8 @@ func judgeNumeric(c *Ctx, sc *Scenario, sp *numericSpec) *Violation {
 			for _, id := range res.Run.BatchIn {
 				cnt[id]++
 			}
-			for id, k := range ex.Closure {
+			for _, id := range sortedStringKeys(ex.Closure) { // sorted: the class reported must not depend on map order
+				k := ex.Closure[id]
 				if k == KBlob {
 					if cnt[id] != 0 {
 						return &Violation{pfx + "blob-content-requested", id}
@@ -188,8 +189,8 @@ func judgeNumeric(c *Ctx, sc *Scenario, sp *numericSpec) *Violation {
 				}
 				delete(cnt, id)
 			}
-			for id, n := range cnt {
-				if n > 0 {
+			for _, id := range sortedIntKeys(cnt) {
+				if n := cnt[id]; n > 0 {
 					return &Violation{pfx + "unreachable-object-requested", id}
 				}
 			}
@@ -360,7 +361,7 @@ var componentsA = map[string]string{
 	"git rev-parse / git config (one-shot)":                                                      "real git 2.39.5 on the materialised repository",
 	"clock":                                                                                      "testing/synctest fake clock",
 	"pipes":                                                                                      "in-memory, capacity / chunking / short reads from the plan",
-	"goroutine scheduling":                                                                       "Go runtime at GOMAXPROCS=1; peer event order decided by the plan's fake-time delays; which of git-sizer's own goroutines proceeds at each lock / channel operation / goroutine start decided by the plan's Gosched counts at the inserted yield points (one plan in three, and 8 schedules per C17 evaluation)",
+	"goroutine scheduling":                                                                       "Go runtime at GOMAXPROCS=1; peer event order decided by the plan's fake-time delays; which of git-sizer's own goroutines proceeds at each lock / channel operation / goroutine start decided by the plan's yield counts at the inserted yield points (a yield is a channel hand-off that moves the caller to the tail of the P's local run queue) (one plan in three, and 8 schedules per C17 evaluation)",
 }
 
 // additiveGraft returns a graft line that keeps the real parents of one
@@ -388,4 +389,22 @@ func additiveGraft(w *World, ex *Expected) string {
 		line += " " + p
 	}
 	return line + " " + outside[0].ID + "\n"
+}
+
+func sortedStringKeys(m map[string]string) []string {
+	ks := make([]string, 0, len(m))
+	for k := range m {
+		ks = append(ks, k)
+	}
+	sort.Strings(ks)
+	return ks
+}
+
+func sortedIntKeys(m map[string]int) []string {
+	ks := make([]string, 0, len(m))
+	for k := range m {
+		ks = append(ks, k)
+	}
+	sort.Strings(ks)
+	return ks
 }
